@@ -1,0 +1,24 @@
+// SPDX-FileCopyrightText: 2026 The Pion community <https://pion.ly>
+// SPDX-License-Identifier: MIT
+
+//go:build !verif
+
+// Package vtrace holds verification hooks. Without the "verif" build tag every
+// hook is a compile-time no-op.
+package vtrace
+
+// Enabled reports whether verification hooks are compiled in.
+const Enabled = false
+
+// Emit records one verification event (no-op).
+func Emit(any, string, ...any) {}
+
+// TimeoutC returns a channel on which a harness fires virtual retransmission
+// timeouts (nil, never ready, without the verif tag).
+func TimeoutC(any) <-chan struct{} { return nil }
+
+// Gate blocks at a named point until a harness releases it (no-op).
+func Gate(any, string) {}
+
+// Filter lets a harness replace a value at a named point (identity).
+func Filter(_ any, _ string, v any) any { return v }
